@@ -34,20 +34,139 @@ def gen_imports(r, g, k):
     return out
 
 
+# module names that sort before "__future__" (upper case, leading underscore) next to the usual ones
+MODS2 = G.MODS + [['Umod'], ['PIL', 'img'], ['_A']]
+ROOTS = ('pkg', 'm', 'a', 'n', 'Umod', 'PIL', '_A')
+SUBMODS = ("sub", "b", "img")
+FUTURES = ["division", "print_function", "absolute_import"]
+
+
+def gen_params(r):
+    """ImportFormatParams: the property quantifies over all formatting configurations"""
+    if r.random() < .4:
+        return {}
+    p = {}
+    if r.random() < .5:
+        p["separate_from_imports"] = r.random() < .4
+    if r.random() < .4:
+        p["align_imports"] = r.choice([True, False, 32])
+    if r.random() < .3:
+        p["max_line_length"] = r.choice([30, 40, 79])
+    if r.random() < .3:
+        p["from_spaces"] = r.choice([1, 3])
+    if r.random() < .3:
+        p["hanging_indent"] = r.choice(["never", "auto", "always"])
+    return p
+
+
 def make_case(seed, i):
     r = cm.rng(seed, "c02", i)
-    g = G.Gen(r, True, maxdepth=2)
+    g = G.Gen(r, True, maxdepth=2, mods=MODS2)
     prog = []
     if r.random() < .3:
         prog.append(["expr", ["op", "doc", []]])
+    fut = r.random() < .25
     for seg in range(r.choice([1, 1, 2, 3])):
+        if seg == 0 and fut:
+            prog.append(["from", ["__future__"], [[r.choice(FUTURES), None]]])
         prog += gen_imports(r, g, r.randint(1, 4))
+        if r.random() < .25:
+            # a package and one of its submodules, plain, in one block; the submodule is read through the package
+            root, sub = r.choice([("pkg", "sub"), ("a", "b"), ("PIL", "img")])
+            pair = [["import", [[[root, sub], None]]], ["import", [[[root], None]]]]
+            r.shuffle(pair)
+            prog += pair
+            tail = [["expr", ["load", root, [sub, r.choice(G.ATTRS)]]]]
+        else:
+            tail = []
+        if r.random() < .12:
+            prog.append(["expr", ["op", "doc", []]])          # a bare string literal after imports
         for _ in range(r.randint(1, 4)):
             prog += g.stmt(0)
+        prog += tail
         # reads of imported-looking names so that operations on them are observed
         for _ in range(r.randint(0, 2)):
             prog.append(["expr", ["load", r.choice(G.NAMES), [r.choice(G.ATTRS)]]])
-    return {"kind": "exec", "i": i, "prog": G.normalise(prog), "ns": [[G.REG, G.DEC]]}
+    add_docstrings(r, prog, top=True)
+    # imports that are read only by a doctest example (or named only in braces)
+    docs = []
+    c05.walk(prog, lambda s, p: docs.append(s) if s[0] == "doc" else None)
+    k0 = 0
+    while k0 < len(prog) and (prog[k0][0] == "doc" or (prog[k0][0] == "expr" and prog[k0][1][:2] == ["op", "doc"])
+                              or (prog[k0][0] == "from" and prog[k0][1] == ["__future__"])):
+        k0 += 1
+    for j, d in enumerate(docs[:3]):
+        if r.random() < .7:
+            alias = "dt%d" % j
+            if r.random() < .75:
+                d[1].append(["expr", ["load", alias, [r.choice(G.ATTRS)]]])
+            else:
+                d[2].append(alias)
+            prog.insert(k0, r.choice([["from", ["m"], [["d", alias]]], ["import", [[["pkg", "sub"], alias]]]]))
+    return {"kind": "exec", "i": i, "prog": G.normalise(prog), "ns": [[G.REG, G.DEC]], "params": gen_params(r)}
+
+
+def gen_docstring(r):
+    exs = []
+    for _ in range(r.randint(0, 3)):
+        ld = ["load", r.choice(G.NAMES), [r.choice(G.ATTRS) for _ in range(r.choice([0, 1, 1, 2]))]]
+        k = r.random()
+        if k < .5:
+            exs.append(["expr", ld])
+        elif k < .8:
+            exs.append(["expr", ["op", "call", [ld, ["load", r.choice(G.NAMES), []]]]])
+        else:
+            exs.append(["assign", [["n", r.choice(G.NAMES)]], ld])
+    braces = [r.choice(G.NAMES) for _ in range(r.choice([0, 0, 1, 2]))]
+    return ["doc", exs, braces]
+
+
+def add_docstrings(r, body, top=False, container=False):
+    """docstrings with doctest examples and {brace} identifiers at the head of module / def / async def / class /
+    method bodies (and after an assignment, the Epydoc convention); some defs become `async def`"""
+    for s in list(body):
+        if s[0] in ("def", "class"):
+            if s[0] == "def" and r.random() < .4:
+                s[3]["async"] = True
+            add_docstrings(r, s[5], container=True)
+        elif s[0] == "for":
+            add_docstrings(r, s[3]); add_docstrings(r, s[4])
+        elif s[0] in ("while", "if"):
+            add_docstrings(r, s[2]); add_docstrings(r, s[3])
+        elif s[0] == "with":
+            add_docstrings(r, s[2])
+        elif s[0] == "try":
+            add_docstrings(r, s[1]); add_docstrings(r, s[3]); add_docstrings(r, s[4])
+    if top:
+        if body and body[0][0] == "expr" and body[0][1][:2] == ["op", "doc"]:
+            if r.random() < .6:
+                body[0] = gen_docstring(r)
+        return
+    if not container:
+        return
+    if r.random() < .35:
+        body.insert(0, gen_docstring(r))
+    elif len(body) > 2 and r.random() < .1:
+        k = r.randrange(1, len(body) - 1)
+        if body[k][0] == "assign":
+            body.insert(k + 1, gen_docstring(r))
+
+
+def docstrings(prog):
+    """the example sources of every docstring statement of the term, one list per docstring"""
+    out = []
+
+    def ex_src(x):
+        rr = G.Render(G._Recorder())
+        if x[0] == "expr":
+            return rr.expr(x[1])[0]
+        return " = ".join([rr.target(y)[0] for y in x[1]] + [rr.expr(x[2])[0]])
+
+    def f(s, p):
+        if s[0] == "doc" and s[1]:
+            out.append([ex_src(x) for x in s[1]])
+    c05.walk(prog, f)
+    return out
 
 
 def top_blocks(prog):
@@ -103,37 +222,50 @@ def impl_case(c):
     from pyflyby._importdb import ImportDB
     from pyflyby._importstmt import Import
     from pyflyby._parse import PythonBlock
+    from pyflyby._importstmt import ImportFormatParams
     src = c["src"]
+    params = ImportFormatParams(**c.get("params", {}))
     out = c05.impl_case({"kind": "free", "src": src, "ns": c["ns"]})
+    out["scandoc"] = scan_doc(src)
     out["blocks"] = ast_blocks(src)
     for b in out["blocks"]:
         s = ImportSet([Import.from_parts(f, a) for f, a in b["imports"]], ignore_shadowed=True)
         b["set"] = [[i.fullname, i.import_as] for i in s.imports]
-    for key, fn in (("reformat", lambda: reformat_import_statements(PythonBlock(src))),
+    for key, fn in (("reformat", lambda: reformat_import_statements(PythonBlock(src), params=params)),
                     ("tidy", lambda: fix_unused_and_missing_imports(PythonBlock(src), db=ImportDB(""), add_missing=False,
-                                                                    add_mandatory=False, remove_unused=True))):
+                                                                    add_mandatory=False, remove_unused=True, params=params))):
         try:
             text = str(fn())
             out[key] = {"text": text, "blocks": ast_blocks(text)}
         except Exception as e:
             out[key] = {"exc": type(e).__name__, "msg": str(e)[:200]}
     nsn = [n for lv in c["ns"] for n in lv]
-    out["run"] = {"orig": run_tagged(src, nsn)}
+    docs = c.get("docs", [])
+    out["run"] = {"orig": run_tagged(src, nsn, docs)}
     for key in ("reformat", "tidy"):
         if "text" in out[key]:
-            out["run"][key] = run_tagged(out[key]["text"], nsn)
+            out["run"][key] = run_tagged(out[key]["text"], nsn, docs)
     return out
+
+
+def scan_doc(src):
+    from pyflyby._autoimp import scan_for_import_issues
+    from pyflyby._parse import PythonBlock
+    try:
+        m, u = scan_for_import_issues(PythonBlock(src), find_unused_imports=True, parse_docstrings=True)
+        return {"missing": [[ln, str(n)] for ln, n in m], "unused": [[ln, imp.fullname, imp.import_as] for ln, imp in u]}
+    except Exception as e:
+        return {"exc": type(e).__name__, "msg": str(e)[:200]}
 
 
 def impl_scan(c):
     """second phase: scan of the reformatted module (closed: the text is the rendering of a term)"""
-    return c05.impl_case({"kind": "free", "src": c["src"], "ns": c["ns"]})
+    out = c05.impl_case({"kind": "free", "src": c["src"], "ns": c["ns"]})
+    out["scandoc"] = scan_doc(c["src"])
+    return out
 
 
-SUBMODS = ("sub", "b")
-
-
-def run_tagged(src, nsnames):
+def run_tagged(src, nsnames, docs=()):
     """execute under the tracing universe; every value derived from an import carries a provenance tag and every
     operation on a tagged value is logged"""
     import builtins
@@ -184,15 +316,26 @@ def run_tagged(src, nsnames):
         def __eq__(s, o): return True
         def __mro_entries__(s, bases): return ()
 
+    lazy = []
+
+    def user_code():
+        fr = sys._getframe(2)
+        return fr.f_code.co_filename == '<p>' and fr.f_code.co_code[fr.f_lasti] != IMPORT_FROM
+
     class VMod(types.ModuleType):
+        def __getattribute__(s, n):
+            if not n.startswith('__') and user_code():
+                # every attribute fetch written in the program is an observed operation, whether or not the attribute
+                # is already set on the module (fetches made by import statements are not: import order is excluded)
+                log.append(('M:' + types.ModuleType.__getattribute__(s, '__name__'), '.' + n))
+            return types.ModuleType.__getattribute__(s, n)
         def __getattr__(s, n):
             if n.startswith('__'):
                 raise AttributeError(n)
-            fr = sys._getframe(1)
-            # attribute fetches made by the import statement itself are not behaviour (import order is excluded)
-            if fr.f_code.co_filename == '<p>' and fr.f_code.co_code[fr.f_lasti] != IMPORT_FROM:
-                log.append(('M:' + s.__name__, '.' + n))
             if n in SUBMODS:
+                if user_code():
+                    # the submodule was not imported by anything so far: a real package would raise AttributeError
+                    lazy.append(s.__name__ + '.' + n)
                 return importlib.import_module(s.__name__ + '.' + n)
             return V(s.__name__ + ':' + n)
         def __call__(s, *a, **k):
@@ -218,7 +361,7 @@ def run_tagged(src, nsnames):
 
     class Finder(importlib.abc.MetaPathFinder, importlib.abc.Loader):
         def find_spec(self, name, path=None, target=None):
-            if name.split('.')[0] in ('pkg', 'm', 'a', 'n'):
+            if name.split('.')[0] in ROOTS:
                 return importlib.machinery.ModuleSpec(name, self, is_package=True)
             return None
         def create_module(self, spec):
@@ -305,7 +448,19 @@ def run_tagged(src, nsnames):
                         elif p.kind == p.KEYWORD_ONLY:
                             kwargs[p.name] = V('arg')
                 log.append(('call', f.__name__))
-                f(*args, **kwargs)
+                res = f(*args, **kwargs)
+                if inspect.iscoroutine(res):
+                    try:
+                        res.send(None)              # run the body of an `async def` (it awaits nothing)
+                    except StopIteration:
+                        pass
+            # the doctest examples, as the doctest module runs them: per docstring, in a copy of the module globals
+            for exs in docs:
+                globs = Rec(dict(g))
+                globs.failed = g.failed
+                log.append(('doctest', str(len(exs))))
+                for ex in exs:
+                    exec(compile(ex + "\n", '<p>', 'exec'), globs)
         except Exception as e:
             exc = type(e).__name__ + ": " + str(e)[:80]
         fin = {k: tag(v) for k, v in g.items() if not k.startswith('__') and k not in (G.REG, G.DEC)}
@@ -313,7 +468,8 @@ def run_tagged(src, nsnames):
             doc = ast.get_docstring(ast.parse(src))
         except Exception:
             doc = None
-        return {"unbound": sorted(set(g.failed)), "final": fin, "log": [list(x) for x in log[:4000]], "doc": doc, "exc": exc}
+        return {"unbound": sorted(set(g.failed)), "final": fin, "log": [list(x) for x in log[:4000]], "doc": doc, "exc": exc,
+                "lazy": sorted(set(lazy))}
     finally:
         sys.meta_path.remove(finder)
         for k in set(sys.modules) - saved:
@@ -327,8 +483,23 @@ def c_imports(l):
     return cm.clist([cm.cpair(cm.cstr(f), cm.cstr(a)) for f, a in l])
 
 
-def block_expr(imports, removals):
-    return "run_block %s %s" % (c_imports(imports), cm.clist([cm.cstr(a) for a in removals]))
+def block_expr(imports, removals, sep=True):
+    return "run_block %s %s %s" % (cm.cbool(sep), c_imports(imports), cm.clist([cm.cstr(a) for a in removals]))
+
+
+def same_layout(a, b):
+    """same statements on the same lines (alignment spaces inside a line may differ)"""
+    if a == b:
+        return True
+    try:
+        ta, tb = ast.parse(a), ast.parse(b)
+    except SyntaxError:
+        return False
+    if ast.dump(ta) != ast.dump(tb):
+        return False
+    la = [getattr(n, "lineno", None) for n in ast.walk(ta)]
+    lb = [getattr(n, "lineno", None) for n in ast.walk(tb)]
+    return la == lb
 
 
 def splice(prog, ref_blocks):
@@ -395,21 +566,30 @@ def rebinding_import_after_reader(prog):
 
 
 def stale_dotted_key(prog):
-    """F16b: the root of a plain dotted import (`import x.y`) is bound a second time: reads of `x.y...` keep
-    resolving to the dotted key of the first import"""
+    """F16b: the root of a plain dotted import (`import x.y`) is also bound to something that is not the package x
+    (an assignment, a def, `from m import x`, `import m as x`): reads of `x.y...` keep resolving to the dotted key"""
     sites = binding_sites(prog)
+    plain_roots = {}
+
+    def g(s, p):
+        if s[0] == "import":
+            for d, a in s[1]:
+                if a is None:
+                    plain_roots[d[0]] = plain_roots.get(d[0], 0) + 1
+    c05.walk(prog, g)
     hit = []
 
     def f(s, p):
         if s[0] == "import":
             for d, a in s[1]:
-                if a is None and len(d) > 1 and sites.get(d[0], 0) > 1:
+                if a is None and len(d) > 1 and sites.get(d[0], 0) > plain_roots.get(d[0], 0):
                     hit.append(1)
     c05.walk(prog, f)
     return bool(hit)
 
 
 def deferred_reads(prog):
+    """names read inside a def body or a lambda body (loads and the bases of attribute stores)"""
     acc = set()
 
     def ex(e, inside):
@@ -440,10 +620,35 @@ def deferred_reads(prog):
         inside = any(k == "def" for k, _ in p)
         for x in c05.stmt_exprs(s):
             ex(x, inside)
-        if s[0] == "aug" and inside:
-            acc.add(s[1])
+        if inside:
+            acc.update(store_roots(s))
     c05.walk(prog, f)
     return acc
+
+
+def store_roots(s):
+    """names read as the base of an attribute store (`n.a = v`, `for n.a in ...`, `n.a += v`)"""
+    out = []
+
+    def tg(t):
+        if t is None:
+            return
+        if t[0] == "a":
+            out.append(t[1])
+        elif t[0] == "t":
+            for x in t[1]:
+                tg(x)
+    if s[0] == "assign":
+        for t in s[1]:
+            tg(t)
+    elif s[0] == "for":
+        tg(s[1])
+    elif s[0] == "with":
+        for _, t in s[1]:
+            tg(t)
+    elif s[0] == "aug":
+        out.append(s[1])
+    return out
 
 
 def own_name_reader(prog):
@@ -472,10 +677,38 @@ def all_reads(prog):
     def f(s, p):
         for x in c05.stmt_exprs(s):
             ex(x)
-        if s[0] == "aug":
-            acc.add(s[1])
+        acc.update(store_roots(s))
     c05.walk(prog, f)
     return acc
+
+
+def first_iter_reader(prog):
+    """F10-firstiter, unused side: an import-bound name that is also a comprehension target and is read in a lambda"""
+    b = binders(prog)
+    return bool(set(b) & c05.comp_targets(prog) & deferred_reads(prog))
+
+
+def class_level_reader(prog):
+    """F10-classcomp, unused side: a class binds x at class level and reads x somewhere in its body (a nested scope reads
+    the GLOBAL x), while an import binds x"""
+    b = binders(prog)
+    hit = []
+
+    def f(s, p):
+        if s[0] == "class" and (c05.block_binds(s[5]) & set(b) & all_reads(s[5])):
+            hit.append(1)
+    c05.walk(prog, f)
+    return bool(hit)
+
+
+def docstring_promotion(prog):
+    """a bare string literal preceded by import statements only: removing them makes it the module docstring"""
+    for k, s in enumerate(prog):
+        if s[0] == "expr" and s[1][0] == "op" and s[1][1] == "doc":
+            return k > 0
+        if s[0] not in ("import", "from"):
+            return False
+    return False
 
 
 def class_own_name_reader(prog):
@@ -502,10 +735,17 @@ def classify(case):
         return "F34"
     if stale_dotted_key(prog):
         return "F16b"
+    if first_iter_reader(prog):
+        return "F10-firstiter"
+    if class_level_reader(prog):
+        return "F10-classcomp"
     return None
 
 
 KNOWN_WHAT = {
+    "F10-firstiter": "a lambda inside the first iterable of a comprehension reads a global that is also the comprehension target: the read is resolved to the target, the import of the global is removed",
+    "F10-classcomp": "a nested scope in a class body reads a global that the class also binds at class level: the read is resolved to the class-level name, the import of the global is removed",
+    "docpromo": "every import in front of a bare string literal is removed (or moved), so the string becomes the module docstring",
     "F16b": "`import x.y` leaves a dotted key `x.y` in the scope; after `x` is rebound a read of `x.y` still resolves to that key, so the rebinding import stays unmarked and is removed",
     "F10-class": "a class's own name is stored inside its body scope: an import of that name read in the class body is reported unused",
     "F7": "an import block binds one name to two different objects; sorting the block changes which binding wins",
@@ -525,12 +765,31 @@ def removed_names(before_blocks, after_blocks):
     return {s.split(".")[0] for (f, s), n in (a - b).items()}
 
 
-def compare_runs(kind, base, got, rem):
+def plain_paths(prog):
+    """dotted paths made reachable by a plain `import a.b.c` somewhere in the program"""
+    acc = set()
+
+    def f(s, p):
+        if s[0] == "import":
+            for d, a in s[1]:
+                if a is None:
+                    for k in range(2, len(d) + 1):
+                        acc.add(".".join(d[:k]))
+    c05.walk(prog, f)
+    return acc
+
+
+def compare_runs(kind, base, got, rem, plain=()):
     """None when the rewritten module behaves as the original; otherwise what differs"""
     if base["exc"] is not None:
         return None                                   # the original does not run to the end: nothing is claimed
     if got["exc"] is not None:
         return {"rewritten raises": got["exc"]}
+    # a submodule reached through its package although nothing imported it: AttributeError in a real package.  Claimed
+    # only where the original had a plain `import pkg.sub` providing it (DESIGN: the only way programs reach pkg.sub)
+    newlazy = sorted(x for x in set(got.get("lazy", [])) - set(base.get("lazy", [])) if x in plain)
+    if newlazy:
+        return {"submodule no longer imported": newlazy}
     new_unbound = sorted(set(got["unbound"]) - set(base["unbound"]))
     if new_unbound:
         return {"new unbound globals": new_unbound}
@@ -553,7 +812,8 @@ def compare_runs(kind, base, got, rem):
 
 def run_cases(ctx, cases):
     prepared = [c05.prepare(c) for c in cases]
-    wcases = [{"src": p[0], "ns": c["ns"]} for c, p in zip(cases, prepared)]
+    wcases = [{"src": p[0], "ns": c["ns"], "params": c.get("params", {}), "docs": docstrings(c["prog"])}
+              for c, p in zip(cases, prepared)]
     impl = cm.run_impl("c02", "impl_case", wcases, timeout_case=30)
     # phase 1: Finder on the original program
     exprs = [c05.model_expr(c, p[1], p[2]) for c, p in zip(cases, prepared)]
@@ -569,9 +829,10 @@ def run_cases(ctx, cases):
             continue
         rc = {"kind": "free", "i": c["i"], "prog": rp, "ns": c["ns"]}
         rsrc, rterm, rids = c05.prepare(rc)
-        if rsrc != im["reformat"]["text"]:
+        if not same_layout(rsrc, im["reformat"]["text"]):
             ctx.bump("splice_text_differs")
             continue
+        rsrc = im["reformat"]["text"]                 # pyflyby's own text (same statements on the same lines)
         ref_cases.append((rc, rsrc, rterm, rids))
         ref_idx.append(k)
     ref_model = cm.coq_eval_json(c05.REQ, [c05.model_expr(rc, rterm, rids) for rc, rsrc, rterm, rids in ref_cases], shard=60)
@@ -579,22 +840,24 @@ def run_cases(ctx, cases):
     ref_unused = {}
     for k, (rc, rsrc, rterm, rids), mo, im2 in zip(ref_idx, ref_cases, ref_model, ref_impl):
         d = c05.decode(mo, rids)
-        ref_unused[k] = d["scan"]["unused"]
-        if "scan" in im2 and "exc" not in im2["scan"] and im2["scan"]["unused"] != d["scan"]["unused"]:
-            ctx.disagreement("scan_for_import_issues.unused (reformatted module)", {"src": rsrc, "ns": rc["ns"], "prog": rc["prog"], "kind": "free"},
-                             im2["scan"]["unused"], d["scan"]["unused"])
+        ref_unused[k] = d["scandoc"]["unused"]
+        if "scandoc" in im2 and "exc" not in im2["scandoc"] and im2["scandoc"]["unused"] != d["scandoc"]["unused"]:
+            ctx.disagreement("scan_for_import_issues(parse_docstrings=True).unused (reformatted module)",
+                             {"src": rsrc, "ns": rc["ns"], "prog": rc["prog"], "kind": "free"},
+                             im2["scandoc"]["unused"], d["scandoc"]["unused"])
     # phase 3: blocks through the ImportSet model
     bexprs, bindex = [], []
     for k, (c, im) in enumerate(zip(cases, impl)):
         if "__exc__" in im or "__timeout__" in im:
             continue
         for bi, b in enumerate(im["blocks"]):
-            bexprs.append(block_expr(b["imports"], []))
+            sep = c.get("params", {}).get("separate_from_imports", True)
+            bexprs.append(block_expr(b["imports"], [], sep))
             bindex.append((k, "orig", bi))
         if k in ref_unused:
             for bi, b in enumerate(im["reformat"]["blocks"]):
                 rem = [a for ln, f, a in ref_unused[k] if b["lines"][0] <= ln <= b["lines"][1]]
-                bexprs.append(block_expr(b["imports"], rem))
+                bexprs.append(block_expr(b["imports"], rem, c.get("params", {}).get("separate_from_imports", True)))
                 bindex.append((k, "ref", bi))
     bres = cm.coq_eval_json(REQ, bexprs, shard=150)
     per = {}
@@ -623,6 +886,8 @@ def check_case(ctx, case, src, ids, im, mo, blocks, have_ref):
             ctx.disagreement("scan_for_import_issues.missing", rec, im["scan"]["missing"], mo["scan"]["missing"])
         if im["scan"]["unused"] != mo["scan"]["unused"]:
             ctx.disagreement("scan_for_import_issues.unused", rec, im["scan"]["unused"], mo["scan"]["unused"])
+        if "exc" not in im["scandoc"] and im["scandoc"] != mo["scandoc"]:
+            ctx.disagreement("scan_for_import_issues(parse_docstrings=True)", rec, im["scandoc"], mo["scandoc"])
     for bi, b in enumerate(im["blocks"]):
         mb = blocks.get("orig", {}).get(bi)
         if mb is None:
@@ -653,9 +918,11 @@ def check_case(ctx, case, src, ids, im, mo, blocks, have_ref):
         if key not in im["run"]:
             continue
         rem = removed_names(im["blocks"], im[key]["blocks"])
-        diff = compare_runs(key, base, im["run"][key], rem)
+        diff = compare_runs(key, base, im["run"][key], rem, plain_paths(case["prog"]))
         if diff is not None:
             fid = fid or classify(case)
+            if "docstring" in diff and docstring_promotion(case["prog"]):
+                fid = "docpromo"
             if fid:
                 ctx.known_hit(fid, "%s changes behaviour (%s)" % (key, KNOWN_WHAT[fid]))
                 ctx.bump("known:" + fid)
@@ -684,7 +951,7 @@ def run_witnesses(ctx):
         ctx.bump("witness_replayed")
         key = pw["tool"]
         rem = removed_names(im["blocks"], im[key]["blocks"])
-        diff = compare_runs(key, im["run"]["orig"], im["run"][key], rem)
+        diff = compare_runs(key, im["run"]["orig"], im["run"][key], rem, plain_paths(c["prog"]))
         if diff is not None:
             ctx.known_hit(fid, "%s changes behaviour (%s); witness %r: %s" % (key, KNOWN_WHAT.get(fid, fid), pw["src"], json.dumps(diff)[:160]))
         else:
@@ -694,7 +961,7 @@ def run_witnesses(ctx):
 def run(ctx):
     cm.check_anchors(ctx, ANCHORS)
     run_witnesses(ctx)
-    n = (300 if ctx.quick else 8000) * ctx.scale
+    n = (700 if ctx.quick else 12000) * ctx.scale
     ctx.coverage["rule"] = (
         "executable programs from one seeded PRNG: 1-3 segments of a top-level import block (1-4 statements: plain / dotted / "
         "aliased / from imports over a 10-name pool, so names collide) followed by statements of the C05 executed stream "
